@@ -702,13 +702,10 @@ class Formula(ABC):
         return self.name
 
     def __eq__(self, other):
-        eq_condition = (self.structure == other.structure) and (
-            self.neuron == other.neuron
-        )
-        return eq_condition
+        return self is other
 
     def __hash__(self):
-        return hash(self.structure)
+        return id(self)
 
     def _add_groundings(self, *groundings: tuple[str]):
         r"""Adds missing groundings to `grounding_table` for those not yet stored.
